@@ -3,7 +3,8 @@ from .common import Decision, run_units
 from .series_props import fold_canaries
 from .hermitian_common import specs_hermitian, LEAN_SETTING_NOTE
 
-LEAN = ["PV.pairing", "PV.unit_left", "PV.unit_right", "PV.C02_unit_left", "PV.C02_unit_right", "PV.C02_adjoint", "PV.C02_Htilde_star"]
+LEAN = ["PV.pairing", "PV.unit_left", "PV.unit_right", "PV.C02_unit_left", "PV.C02_unit_right", "PV.C02_adjoint", "PV.C02_Htilde_star",
+        "PV.TB.toMain", "PV.TB.C02_unit_left", "PV.TB.C02_unit_right", "PV.TB.C02_adjoint", "PV.TB.C02_Htilde_star", "PV.TB.pairing"]
 
 
 def check(tier, seed):
